@@ -1347,6 +1347,10 @@ insert_list:
         }
         return (int)q.size();
     }
+    // the back index stored in a thread (-1 = in no sleep queue)
+    extern "C" int photon_verif_thread_sleepq_idx(const void* th) {
+        return th ? ((const thread*)th)->idx : -2;
+    }
 #endif
     states thread_stat(thread* th)
     {
